@@ -11,7 +11,7 @@ STANDING = [
 ]
 
 
-def write_evidence(prop, tier, seed, proof, bounded, known_lines, violations, faults, wall):
+def write_evidence(prop, tier, seed, proof, bounded, known_lines, violations, faults, wall, selftest=None):
     os.makedirs(os.path.join(HERE, "evidence"), exist_ok=True)
     n_eval = sum(r["evaluations"] for r in bounded.values())
     n_dist = sum(r["distinct"] for r in bounded.values())
@@ -54,6 +54,8 @@ def write_evidence(prop, tier, seed, proof, bounded, known_lines, violations, fa
                                             "conditions and results evaluated on concrete argument tuples and compared with CPython's outcome "
                                             "on the real function; `open` = the encoding deliberately leaves the case unspecified")
         assumptions += proof.get("assumptions", [])
+    if selftest:
+        cov["selftest"] = selftest
     try:
         claimed = json.load(open(os.path.join(HERE, "tools", "claims.json")))[prop]["category"]
     except Exception:
